@@ -49,7 +49,8 @@ CHECKS = {
         "level_text": ("Build pairs are generated from a tiny path alphabet with shared high-entropy streams, block-boundary size classes, "
                        "rename/duplicate/swap/chain/prefix/concat/kind-change operations and rare >4MiB files; every registered "
                        "compressor and quality is drawn; in one third of the cases the differ reads the new build through readers that slice their "
-                       "reads and may return their last bytes together with io.EOF (as zip-backed pools do). The verdict is the independent comparison of the freshly applied tree with "
+                       "reads and may return their last bytes together with io.EOF (as zip-backed pools do); in a quarter the old build's signature is read back from the "
+                       "signature stream of a previous diff instead of being computed; in a fifth the output directory already holds longer files at the new build's paths. The verdict is the independent comparison of the freshly applied tree with "
                        "the new build. Sampling, with shrinking; no claim beyond the explored cases."),
         "level_note": "trusted: the harness' own tree writer/reader (os + filepath), the patch decoder used only for class tags.",
         "rule": ("rapid draws (old tree, derivation ops -> new tree, compression). Oracle: WritePatch nil; fresh apply nil; applied tree == new "
@@ -166,13 +167,14 @@ CHECKS = {
                        "renames/duplicates; one file with k in 0..4 recorded edits (overwrite/insert/delete, offsets biased to first/last block "
                        "and block edges, sizes up to 80 blocks so the 4MiB window wraps). Oracles from the decoded patch and DiffContext: "
                        "FreshBytes+ReusedBytes == new size; FreshBytes == sum of DATA bytes; equal-content file => 0 fresh bytes; edited file => "
-                       "fresh <= introduced + (2k+2)*64KiB (the bound the property states)."),
+                       "fresh <= introduced + (2k+2)*64KiB (the bound the property states). In a quarter of the cases the old build's signature is not "
+                       "computed from the directory but read back (pwr.ReadSignature) from the signature stream a previous diff wrote, as butler does with a downloaded signature."),
         "level_note": "the bound is the one stated in the property; overlapping edits are dropped by the generator (they would only loosen it).",
         "rule": ("rapid draws (family, files with sizes, copies/renames, edits). Non-trivial: an edited file of >= 8 blocks with >= 1 "
                  "length-changing edit (where a de-synchronised rolling hash would blow the bound); for the identical/rename families a "
                  "multi-block file that is kept, renamed or duplicated. Distinct: SHA-1 of the spec."),
         "assumptions": ["high-entropy streams do not collide on 64KiB blocks by chance"],
-        "required_classes": {"quick": ["family:identical", "family:renames", "edits:length-changing", "edits:k=3"],
+        "required_classes": {"quick": ["family:identical", "family:renames", "edits:length-changing", "edits:k=3", "old-signature:read-back-from-a-signature-stream"],
                              "thorough": ["family:identical", "family:renames", "edits:length-changing", "edits:k=4", "edited-file:>4MiB"]},
         "stages": [rapid("freshbytes", "TestProp", 3600, 96000, qs=16, ts=16, qt=600, tt=5400)],
     },
